@@ -11,7 +11,7 @@ type op =
 type case = { backend : string; cap : int; ops : (op * bool * bool) list }   (* op, parks, wakes *)
 
 let id = "C18"
-let rule = "operation sequences (Write k, ReadAt(o,k), Reader.Read, SeekTo, IsValid, DataRange, Close) on memory backlogs of capacity 4096/8192 and \
+let rule = "operation sequences (Write k, ReadAt(o,k), Reader.Read, SeekTo, IsValid, DataRange, Close) on memory backlogs of 1, 2, 3, 5 and 6 alignment units (4096..24576 bytes: powers of two and not) and \
 file backlogs of 4 MiB; write sizes around 1, cap-1, cap, cap+1, 2cap+5; read offsets at distance 0 (parks), 1, cap-1, cap, cap+1 behind the \
 writer and ahead of it; parked reads are woken by later writes / close; non-trivial = at least one wrap-around or one parked read; distinct by wire line"
 
@@ -80,7 +80,7 @@ let gen_seq st backend cap nops =
 let gen st tier =
   let thorough = tier = "thorough" in
   let n = if thorough then 20000 else 1200 in
-  let mem = List.init n (fun _ -> gen_seq st "mem" (rnd_pick st [ 1; 4096; 5000 ]) (4 + rnd_int st 20)) in
+  let mem = List.init n (fun _ -> gen_seq st "mem" (rnd_pick st [ 1; 4096; 5000; 9000; 12288; 20000; 24576 ]) (4 + rnd_int st 20)) in
   let file = List.init (if thorough then 40 else 4) (fun _ -> gen_seq st "file" 1 (6 + rnd_int st 8)) in
   mem @ file
 
